@@ -441,7 +441,7 @@ package builder
 //@   ensures [ctx] Ctx(p)
 //@   loop#1 invariant [dom C14] forall l string :: {has(m, l)} (has(m, l) == (exists k int :: 0 <= k && k < idx && labels[k] == l)) && (has(m, l) ==> m[l] == expr)
 //@   loop#1 invariant [frame] m != nil && fresh(m)
-//@   loop#1 invariant [others C14] forall x map[string]any :: {mapdom(x)} x != m ==> mapdom(x) == old(mapdom(x)) && mapval(x) == old(mapval(x))
+//@   loop#1 invariant [others C14] forall x map[string]any :: {mapdom(x)} {mapval(x)} x != m ==> mapdom(x) == old(mapdom(x)) && mapval(x) == old(mapval(x))
 //@   raw-capacity
 //@   safety C11
 //@   frame C18
@@ -522,7 +522,7 @@ package builder
 //@ pred StoreId(p *parser) bool = p.cur.state == old(p.cur.state) || fresh(p.cur.state)
 // StoreFrame: store maps that existed at entry, other than the then-current store and the global
 // store, keep their contents (in particular: snapshots held by callers).
-//@ pred StoreFrame(p *parser) bool = forall x storeDict :: {mapdom(x)} old(alloc(x)) && x != old(p.cur.state) && x != p.cur.globalStore ==> mapdom(x) == old(mapdom(x)) && mapval(x) == old(mapval(x))
+//@ pred StoreFrame(p *parser) bool = forall x storeDict :: {mapdom(x)} {mapval(x)} old(alloc(x)) && x != old(p.cur.state) && x != p.cur.globalStore ==> mapdom(x) == old(mapdom(x)) && mapval(x) == old(mapval(x))
 //@ pred LoopStore(p *parser) bool = StoreId(p) && StoreFrame(p) && p.cur.globalStore == old(p.cur.globalStore)
 //@ pred StoreC(p *parser, ok bool) bool = OnFailStore(p, ok) && StoreId(p) && StoreFrame(p) && p.cur.globalStore == old(p.cur.globalStore)
 // Snap(p, s): s is a snapshot of the store as it was at entry, still intact and not the current store.
